@@ -172,6 +172,25 @@ Theorem C09_last_insert_wins : forall k v c1 c2, (forall v', ~ In (k, v') c2) ->
   ext_get k (c1 ++ (k, v) :: c2) = Some v.
 Proof. exact ext_get_last. Qed.
 
+(* registration (builder calls): `configure(f)` on an App / Scope appends the services [f]
+   registers; if [f] registers no default service the one registered BEFORE the call is kept, if it
+   registers one it replaces it *)
+Theorem C09_configure_keeps_or_replaces_default : forall (calls : list bld) (s : bst),
+  let c := apply_calls true calls (mkB [] (Some []) None) in
+  let s' := apply_call false (BConfigure calls) s in
+  b_services s' = b_services s ++ b_services c /\
+  (b_default c = None -> b_default s' = b_default s) /\
+  (forall d, b_default c = Some d -> b_default s' = Some d).
+Proof. exact configure_default. Qed.
+
+Example C09_example_default_then_configure :
+  build_app [BScope (mkPattern [SConst [47; 97]] false) []
+               [BDefault 5; BConfigure [BRes (Single (mkPattern [SConst [47; 120]] false)) [] [([], 1)] None None]]] =
+  mkApp [Scope (mkPattern [SConst [47; 97]] false) []
+           [Resource (Single (mkPattern [SConst [47; 120]] false)) [] [([], 1)] None None] (Some 5) (Some [])]
+        None [].
+Proof. reflexivity. Qed.
+
 (* ------------------------------------------------------------------------------ non-vacuity *)
 (* Overlapping patterns, rejecting guard first: two resources "/u/{id}" in scope "/api"; the
    first requires POST, the second does not.  GET /api/u/a%2Fb%41 is answered by the second
